@@ -259,6 +259,22 @@ fn replace_call_expr_if_csi_method_with_member(
         //  a) a.substring() -> __datadog_token_$i = a, __datadog_token_$i2 = __datadog_token_$i.substring, __datadog_token_$i2.call(__datadog_token_$i, __datadog_token_$i2)
         //  b) String.prototype.substring.[call|apply](a) -> __datadog_token_$i = a, __datadog_token_$i2 = String.prototype.substring, __datadog_token_$i2.call(__datadog_token_$i, __datadog_token_$i2)
 
+        // f().substring.call(g()) evaluates f() before g(): a callee path that is not a static
+        // X.y.z path has to be extracted before the this-argument
+        let callee_first = member_expr_opt.and_then(|member_expr| {
+            if FunctionPrototypeTransform::is_static_member_path(member_expr) {
+                None
+            } else {
+                Some(ident_provider.get_ident_used_in_assignation(
+                    &Expr::Member(member_expr.clone()),
+                    &mut assignations,
+                    &mut arguments,
+                    &span,
+                    IdentKind::Expr,
+                ))
+            }
+        });
+
         // __datadog_token_$i = a
         let ident_replacement_option = ident_provider.get_temporal_ident_used_in_assignation(
             expr,
@@ -269,8 +285,9 @@ fn replace_call_expr_if_csi_method_with_member(
 
         let ident_replacement = ident_replacement_option.map_or_else(|| expr.clone(), Expr::Ident);
 
-        let ident_callee = match member_expr_opt {
-            Some(member_expr) => {
+        let ident_callee = match (callee_first, member_expr_opt) {
+            (Some(ident_callee), _) => ident_callee,
+            (None, Some(member_expr)) => {
                 // __datadog_token_$i2 = member
                 ident_provider.get_ident_used_in_assignation(
                     &Expr::Member(member_expr.clone()),
@@ -280,7 +297,7 @@ fn replace_call_expr_if_csi_method_with_member(
                     IdentKind::Expr,
                 )
             }
-            None => {
+            (None, None) => {
                 // __datadog_token_$i.substring
                 let member_expr = MemberExpr {
                     span,
